@@ -715,6 +715,32 @@ class ExprMixin:
                 yield "ok", ("boolop", type(n.op).__name__, tuple(ts)), s
 
     def e_Compare(self, n, st, fx):
+        # x in (E for v in IT)  /  x in map(f, IT)   ==   any(E == x for v in IT)      (and `not in` its negation)
+        if len(n.ops) == 1 and isinstance(n.ops[0], (ast.In, ast.NotIn)):
+            c = n.comparators[0]
+            if isinstance(c, ast.Call) and isinstance(c.func, ast.Name) and c.func.id == "map" and "map" not in st.env and len(c.args) == 2 \
+                    and not c.keywords and self.prog.resolve(fx.module, "map") is None:
+                v_ = "__map_item_%d" % n.lineno
+                c = ast.GeneratorExp(elt=ast.Call(func=c.args[0], args=[ast.Name(id=v_, ctx=ast.Load())], keywords=[]),
+                                     generators=[ast.comprehension(target=ast.Name(id=v_, ctx=ast.Store()), iter=c.args[1], ifs=[], is_async=0)])
+            if isinstance(c, ast.GeneratorExp):
+                gen = ast.GeneratorExp(elt=ast.Compare(left=c.elt, ops=[ast.Eq()], comparators=[n.left]), generators=c.generators)
+                alt = ast.Call(func=ast.Name(id="any", ctx=ast.Load()), args=[gen], keywords=[])
+                if isinstance(n.ops[0], ast.NotIn):
+                    alt = ast.UnaryOp(op=ast.Not(), operand=alt)
+                ast.copy_location(alt, n)
+                ast.fix_missing_locations(alt)
+                # the enclosing statement must see the rewritten node (consumer detection walks the function's tree)
+                for parent in ast.walk(fx.func.node):
+                    for fld, val in ast.iter_fields(parent):
+                        if val is n:
+                            setattr(parent, fld, alt)
+                        elif isinstance(val, list):
+                            for i_, x_ in enumerate(val):
+                                if x_ is n:
+                                    val[i_] = alt
+                yield from self.ev(alt, st, fx)
+                return
         for r, ts, s in self.ev_list([n.left] + list(n.comparators), st, fx):
             if r == "raise":
                 yield r, ts, s
@@ -1079,6 +1105,11 @@ class ExprMixin:
         nn = st.facts.get(("nonnull", t))
         if nn is False:
             return False
+        # a value known to equal a constant is as true as that constant (q == 1 holds: `if q:` is taken)
+        for f, v in st.facts.items():
+            if isinstance(f, tuple) and len(f) == 4 and f[0] == "cmp" and f[2] == t and is_const(f[3]) and isinstance(f[3][1], (int, str, bool)) \
+                    and ((f[1] == "==" and v is True) or (f[1] == "!=" and v is False)):
+                return bool(f[3][1])
         return None
 
     def assume(self, t, pol, st):
